@@ -55,12 +55,14 @@ def gen_value(rng, alphabet):
                    for _ in range(rng.randint(1, 3))]]
 
 
-def gen_one(rng, tier):
+def gen_one(rng, tier, scale=False):
     big = tier == 'thorough' and rng.random() < 0.5
     alphabet = ['a', 'b', 'c', 'd'][:rng.randint(3, 4)]
     maxdepth = 6 if big else 5
+    if scale:
+        alphabet = [f'n{i}' for i in range(12)] + ['a.b', 'x y', 'ü', '0']
     ops = []
-    for _ in range(rng.randint(1, 40 if big else 20)):
+    for _ in range(rng.randint(1, 40 if big else 20) if not scale else 120):
         k = rng.random()
         if k < 0.72:
             ops.append(['set', gen_key(rng, alphabet, maxdepth),
@@ -76,6 +78,9 @@ def gen_one(rng, tier):
 
 
 def gen_cases(tier, seed):
+    for i in range(2 if tier == 'quick' else 32):
+        yield gen_one(random.Random(f'C11/scale/{seed}/{tier}/{i}'), tier,
+                      scale=True)
     n = 1500 if tier == 'quick' else 16 * 6000
     for i in range(n):
         yield gen_one(random.Random(f'C11/{seed}/{tier}/{i}'), tier)
